@@ -1114,6 +1114,44 @@ def consecutive_rank(repo, col, R):
             f"sorted np.unique(parents): children attach to the wrong branch point for parents such as [-1, 0, 0, 2, 1]", node=fi.node)
 
 
+    # the other half of the pairing: branch point k belongs to the k-th SORTED distinct parent
+    cf = repo.func("jaxley/utils/cell_utils.py", "compute_children_and_parents")
+    cex = idxm.expander(repo, cf)
+    rr = cex.merged_return()
+    if rr is None or rr.op != "tuple" or not rr.args:
+        col.unk(R, cf, "distinct parents, indexed by branch point", "returned tuple not found", node=cf.node)
+        return
+    pu = rr.args[0]
+
+    def order_of(t):
+        """'sorted' / 'first-seen' / None for the order of the distinct values in t"""
+        if t.op in ("mcall", "call") and t.name in ("sort", "sorted"):
+            return "sorted"
+        if t.op == "mcall" and t.name == "unique":
+            recv = t.args[0]
+            lib = recv.name if recv.op in ("name", "free", "global", "module") else recv.pretty()
+            if lib in ("np", "jnp", "numpy"):
+                return "sorted" if not t.kw.get("return_index") else None
+            if lib in ("pd", "pandas"):
+                return "first-seen"
+            return None
+        if t.op == "call" and t.name in ("list", "tuple") and t.args and t.args[0].op == "call" and t.args[0].name in ("set",):
+            return None
+        if t.op == "mcall" and t.name in ("fromkeys", "drop_duplicates", "factorize"):
+            return "first-seen"
+        if t.op in ("mcall", "call") and t.name in ("asarray", "array", "to_numpy", "astype", "list") and t.args:
+            return order_of(t.args[-1] if t.op == "call" or t.name in ("asarray", "array") else t.args[0])
+        if t.op == "item" and t.args:
+            return order_of(t.args[0])
+        return None
+    o = order_of(pu)
+    col.add(R, cf, "branch point k belongs to the k-th distinct parent in SORTED order (the order remap_to_consecutive numbers them in)",
+            "DISCHARGED" if o == "sorted" else ("VIOLATED" if o == "first-seen" else "UNDECIDED"),
+            "np.unique(parents)" if o == "sorted" else
+            f"the distinct parents are {pu.short(80)}: listed by first appearance, while the children's branch-point numbers are ranks in "
+            f"sorted order; for parents such as [-1, 0, 0, 2, 1] parents are wired to another parent's branch point", node=cf.node)
+
+
 def _levels(repo, col):
     R = "R-C01-levels"
     CUF = "jaxley/utils/cell_utils.py"
@@ -1155,6 +1193,24 @@ def _levels(repo, col):
         a_ = [term_rat(x, lvl_leaf) for x in rg.args]
         return (ZERO, a_[0]) if len(a_) == 1 else (a_[0], a_[1])
 
+    def is_levels(t):
+        """the `levels` argument, possibly converted (np.asarray(levels), levels.copy(), ...)"""
+        while t.op in ("mcall", "call") and t.name in ("asarray", "array", "copy", "astype", "to_numpy") and t.args:
+            t = t.args[-1] if (t.op == "call" or t.name in ("asarray", "array")) else t.args[0]
+        return t.op == "param" and t.name == "levels"
+
+    def is_positions(x, flt_):
+        """the positions where the (vector) filter holds: where(f)[0], nonzero(f)[0], flatnonzero(f), or one element of those"""
+        if x.op == "elem":
+            return is_positions(x.args[0], flt_)
+        if x.op == "sub" and x.args[1].op == "const" and x.args[1].name == 0:
+            inner = x.args[0]
+            return inner.op in ("mcall", "call") and inner.name in ("where", "nonzero") and len(inner.args) <= 2 and \
+                T.find(inner, lambda y: y.key() == flt_.key()) is not None
+        if x.op in ("mcall", "call") and x.name == "flatnonzero":
+            return T.find(x, lambda y: y.key() == flt_.key()) is not None
+        return False
+
     M = Rat.atom("M")
     fi = repo.func(CUF, "compute_children_in_level")
     ts = all_terms(idxm.expander(repo, fi))
@@ -1165,20 +1221,17 @@ def _levels(repo, col):
             (x.args[0].op == "mcall" and x.args[0].name in ("asarray", "array") and
              T.find(x.args[0], lambda y: y.op == "param" and y.name == "children_row_and_col") is not None)))
         flt = flt or T.find(t_, lambda x: x.op == "cmp" and x.name == "==" and len(x.args) == 2 and
-                            any((a_.op == "sub" and a_.args[0].op == "param" and a_.args[0].name == "levels") or
-                                (a_.op == "param" and a_.name == "levels") for a_ in x.args))
+                            any((a_.op == "sub" and is_levels(a_.args[0])) or is_levels(a_) for a_ in x.args))
     if row is None or flt is None:
         col.unk(R, fi, "compute_children_in_level: row selection and level filter", "building blocks not found", node=fi.node)
     else:
-        lv_side = next(a_ for a_ in flt.args if (a_.op == "sub" and a_.args[0].op == "param" and a_.args[0].name == "levels") or
-                       (a_.op == "param" and a_.name == "levels"))
+        lv_side = next(a_ for a_ in flt.args if (a_.op == "sub" and is_levels(a_.args[0])) or is_levels(a_))
         l_side = next(a_ for a_ in flt.args if a_ is not lv_side)
-        vector = lv_side.op == "param"
+        vector = is_levels(lv_side)
         try:
             if vector:
                 # rows = table[np.where(levels == l)[0] - 1]: the branch indices are the positions where the filter holds
-                pos = T.find(row.args[1], lambda x: x.op == "sub" and x.args[1].op == "const" and x.args[1].name == 0 and
-                             T.find(x.args[0], lambda y: y.key() == flt.key()) is not None)
+                pos = T.find(row.args[1], lambda x: is_positions(x, flt))
                 if pos is None:
                     raise Und("positions of the filter not found in the row index")
                 off = term_rat(row.args[1], lambda x: Rat.atom("b") if x is pos else lvl_leaf(x)) - Rat.atom("b")
@@ -1211,11 +1264,11 @@ def _levels(repo, col):
             (x.args[0].op == "mcall" and x.args[0].name in ("asarray", "array") and
              T.find(x.args[0], lambda y: y.op == "param" and y.name == "parents_row_and_col") is not None)))
         flt = flt or T.find(t_, lambda x: x.op == "cmp" and x.name == "==" and len(x.args) == 2 and
-                            any(a_.op == "sub" and a_.args[0].op == "param" and a_.args[0].name == "levels" for a_ in x.args))
+                            any(a_.op == "sub" and is_levels(a_.args[0]) for a_ in x.args))
     if row is None or flt is None:
         col.unk(R, fi, "compute_parents_in_level: row selection and level filter", "building blocks not found", node=fi.node)
     else:
-        lv_side = next(a_ for a_ in flt.args if a_.op == "sub" and a_.args[0].op == "param" and a_.args[0].name == "levels")
+        lv_side = next(a_ for a_ in flt.args if a_.op == "sub" and is_levels(a_.args[0]))
         l_side = next(a_ for a_ in flt.args if a_ is not lv_side)
         by_parent = lv_side.args[1].op == "param" and lv_side.args[1].name == "par_inds"
         uses_filter = T.find(row.args[1], lambda x: x.key() == flt.key()) is not None
